@@ -211,6 +211,13 @@ def r_functor_builders(mod, rep, R='R13.4'):
         ok = body_ in ('Functor(%s,self.slash,%s)' % (a, b), 'replace(self,left=%s,right=%s)' % (a, b), 'dataclasses.replace(self,left=%s,right=%s)' % (a, b),
                        'replace(self,right=%s,left=%s)' % (b, a), 'Functor(left=%s,slash=self.slash,right=%s)' % (a, b)) and \
             any('property' in src(d) for d in fn.decorator_list)
+    if not ok and not lam and not fn.decorator_list and len(fn.args.args) == 3:
+        # a plain method: def functor(self, l, r): return Functor(l, self.slash, r)
+        me, a, b = [x.arg for x in fn.args.args]
+        rets = [r_ for r_ in ast.walk(fn) if isinstance(r_, ast.Return) and r_.value is not None]
+        body_ = src(rets[0].value).replace(' ', '') if len(rets) == 1 else ''
+        ok = body_ in ('Functor(%s,%s.slash,%s)' % (a, me, b), 'Functor(left=%s,slash=%s.slash,right=%s)' % (a, me, b),
+                       'replace(%s,left=%s,right=%s)' % (me, a, b), 'dataclasses.replace(%s,left=%s,right=%s)' % (me, a, b))
     rep.check(ok, R, w, 'Functor:functor', 'x.functor(l, r) builds Functor(l, x.slash, r)', 'Functor.functor is %s' % (src(lam[0]) if lam else '?'))
     # the slash operators used throughout the grammars
     for op, slash in (('__truediv__', '/'), ('__or__', '\\')):
